@@ -11,6 +11,8 @@ import (
 	"sync"
 	"sync/atomic"
 	"testing"
+
+	"github.com/golang/glog"
 	"time"
 	"verifharness/child"
 	"verifharness/mon"
@@ -111,6 +113,16 @@ type advServer struct {
 	st       *drv.FakeStream
 	violate  string // "", "unknown-id", "duplicate-terminal"
 	violated atomic.Bool
+	// termStatus is the terminal status sent per id; violBatch the ids whose terminal result
+	// sits in the same response as the protocol violation (ahead of it).
+	termStatus map[uint64]spb.AFTResult_Status
+	violBatch  map[uint64]bool
+	// finalOnly: inject the violation only into a response that answers everything still
+	// outstanding after the application announced its last request (noMore) - the response
+	// that would otherwise let the client converge.
+	finalOnly   bool
+	expectTotal atomic.Int64 // set by the application once its last request was queued
+	nRecv       int64        // operations received so far
 }
 
 func (a *advServer) onSend(_ int, m *spb.ModifyRequest) {
@@ -122,6 +134,7 @@ func (a *advServer) onSend(_ int, m *spb.ModifyRequest) {
 	if m.ElectionId != nil {
 		a.sessQ = append(a.sessQ, &spb.ModifyResponse{ElectionId: m.ElectionId})
 	}
+	a.nRecv += int64(len(m.Operation))
 	for _, o := range m.Operation {
 		var evs []event
 		switch x := a.r.Intn(10); {
@@ -163,6 +176,22 @@ func (a *advServer) step() bool {
 	if a.r.Intn(3) == 0 {
 		n = 1
 	}
+	allIn := a.expectTotal.Load() > 0 && a.nRecv == a.expectTotal.Load()
+	if a.finalOnly && !allIn {
+		// keep the very last event back until the application is done queuing, so that the
+		// response that lets the client converge is the one that carries the violation
+		left := 0
+		for _, evs := range a.ready {
+			left += len(evs)
+		}
+		if left <= 1 {
+			a.mu.Unlock()
+			return false
+		}
+		if n >= left {
+			n = left - 1
+		}
+	}
 	resp := &spb.ModifyResponse{}
 	for k := 0; k < n && len(a.ready) > 0; k++ {
 		i := a.r.Intn(len(a.ready))
@@ -176,22 +205,50 @@ func (a *advServer) step() bool {
 		a.allSent[e.id] = append(a.allSent[e.id], e.st)
 		if terminal(a.fib, e.st) {
 			a.termSent[e.id] = true
+			if a.termStatus == nil {
+				a.termStatus = map[uint64]spb.AFTResult_Status{}
+			}
+			a.termStatus[e.id] = e.st
 		}
 	}
-	if a.violate != "" && !a.violated.Load() && a.r.Intn(6) == 0 {
+	inject := a.r.Intn(6) == 0
+	if a.finalOnly {
+		inject = allIn && len(a.ready) == 0 && len(resp.Result) > 0
+	}
+	if a.violate != "" && !a.violated.Load() && inject {
+		inBatch := map[uint64]bool{}
+		for _, x := range resp.Result {
+			if terminal(a.fib, x.Status) {
+				inBatch[x.Id] = true
+			}
+		}
+		// In FIB-ack mode the client deliberately tolerates a RIB ack for an id it no longer
+		// tracks (a RIB ack arriving after the FIB ack), so RIB_PROGRAMMED is a violation in
+		// RIB-ack mode only - where it is the terminal result.
+		sts := []spb.AFTResult_Status{spb.AFTResult_FAILED, spb.AFTResult_FIB_PROGRAMMED, spb.AFTResult_FIB_FAILED}
+		if !a.fib {
+			sts = []spb.AFTResult_Status{spb.AFTResult_FAILED, spb.AFTResult_RIB_PROGRAMMED, spb.AFTResult_FIB_PROGRAMMED}
+		}
+		did := false
 		switch a.violate {
 		case "unknown-id":
-			// (not RIB_PROGRAMMED: in FIB-ack mode the client deliberately tolerates a RIB ack for an
-			// id it no longer tracks, as a RIB ack that arrives after the FIB ack)
-			resp.Result = append(resp.Result, &spb.AFTResult{Id: 1 << 50, Status: []spb.AFTResult_Status{spb.AFTResult_FAILED, spb.AFTResult_FIB_PROGRAMMED}[a.r.Intn(2)]})
+			resp.Result = append(resp.Result, &spb.AFTResult{Id: 1 << 50, Status: sts[a.r.Intn(len(sts))]})
+			did = true
 		case "duplicate-terminal":
-			for id := range a.termSent {
-				st := spb.AFTResult_FAILED
+			for id, tst := range a.termStatus {
+				st := tst // the same verdict twice ...
+				if a.r.Intn(3) == 0 {
+					st = sts[a.r.Intn(len(sts))] // ... or a contradicting one
+				}
 				resp.Result = append(resp.Result, &spb.AFTResult{Id: id, Status: st})
+				did = true
 				break
 			}
 		}
-		a.violated.Store(len(resp.Result) > 0 && (a.violate == "unknown-id" || len(a.termSent) > 0))
+		if did {
+			a.violBatch = inBatch
+			a.violated.Store(true)
+		}
 	}
 	a.mu.Unlock()
 	a.st.Push(resp)
@@ -250,6 +307,9 @@ func TestChild(t *testing.T) {
 	}
 	defer wr.Close()
 	client.BusyLoopDelay = 200 * time.Microsecond
+	// logging is a point at which the real library can be held up (format, global mutex,
+	// write to stderr and files): give that timing back
+	glog.SetStall(func() { time.Sleep(30 * time.Microsecond) })
 	col := child.NewCollector(wr)
 	prun := &ev.Run{Prop: "C13", Tier: sp.Tier, Seed: sp.Seed}
 	var b int
@@ -308,7 +368,16 @@ func runCase(run sink, prun *ev.Run, i int, caseID string) {
 	r := prun.Rand(caseID)
 	fib := i%2 == 0
 	violate := ""
+	finalOnly := false
 	switch i % 7 {
+	case 4:
+		// the violation rides on the response that completes the last outstanding operation,
+		// while several waiters poll AwaitConverged as fast as they can
+		violate = []string{"unknown-id", "duplicate-terminal"}[(i/7)%2]
+		finalOnly = true
+		old := client.BusyLoopDelay
+		client.BusyLoopDelay = 2 * time.Microsecond
+		defer func() { client.BusyLoopDelay = old }()
 	case 5:
 		violate = "unknown-id"
 	case 6:
@@ -339,7 +408,7 @@ func runCase(run sink, prun *ev.Run, i int, caseID string) {
 		return
 	}
 	fake := &drv.FakeGRIBI{}
-	srv := &advServer{fib: fib, r: rand.New(rand.NewSource(r.Int63())), termSent: map[uint64]bool{}, allSent: map[uint64][]spb.AFTResult_Status{}, stop: make(chan struct{}), violate: violate}
+	srv := &advServer{fib: fib, r: rand.New(rand.NewSource(r.Int63())), termSent: map[uint64]bool{}, allSent: map[uint64][]spb.AFTResult_Status{}, stop: make(chan struct{}), violate: violate, finalOnly: finalOnly}
 	fake.NewStream = func(s *drv.FakeStream) { srv.st = s; s.OnSend = srv.onSend }
 	c.UseStub(fake)
 	ctx, cancel := context.WithCancel(context.Background())
@@ -423,47 +492,71 @@ func runCase(run sink, prun *ev.Run, i int, caseID string) {
 	var waitWG sync.WaitGroup
 	stopWait := make(chan struct{})
 	var convergedOK atomic.Int64
-	waitWG.Add(1)
-	go func() {
-		defer waitWG.Done()
-		for {
-			select {
-			case <-stopWait:
-				return
-			default:
-			}
-			before := queuedSeq.Load()
-			wctx, wcancel := context.WithTimeout(ctx, 20*time.Millisecond)
-			err := c.AwaitConverged(wctx)
-			wcancel()
-			if err == nil {
-				srv.mu.Lock()
-				var missing []uint64
-				for id := uint64(1); id <= before; id++ {
-					if !srv.termSent[id] {
-						missing = append(missing, id)
-					}
+	nWaiters := 1
+	if finalOnly {
+		nWaiters = 6
+	}
+	for wk := 0; wk < nWaiters; wk++ {
+		waitWG.Add(1)
+		go func() {
+			defer waitWG.Done()
+			for {
+				select {
+				case <-stopWait:
+					return
+				default:
 				}
-				srv.mu.Unlock()
-				if len(missing) > 0 {
-					sig := "converged-with-unanswered-operations"
-					if fib {
-						srv.mu.Lock()
-						onlyRIB := len(srv.allSent[missing[0]]) > 0
-						srv.mu.Unlock()
-						if onlyRIB {
-							sig = "converged-on-rib-ack-in-fib-mode"
+				before := queuedSeq.Load()
+				wctx, wcancel := context.WithTimeout(ctx, 20*time.Millisecond)
+				err := c.AwaitConverged(wctx)
+				wcancel()
+				if err == nil {
+					srv.mu.Lock()
+					var missing []uint64
+					for id := uint64(1); id <= before; id++ {
+						if !srv.termSent[id] {
+							missing = append(missing, id)
 						}
 					}
-					problem(sig, fmt.Sprintf("AwaitConverged returned nil although operations %v (queued before the call) have no terminal result yet", missing))
+					srv.mu.Unlock()
+					if len(missing) > 0 {
+						sig := "converged-with-unanswered-operations"
+						if fib {
+							srv.mu.Lock()
+							onlyRIB := len(srv.allSent[missing[0]]) > 0
+							srv.mu.Unlock()
+							if onlyRIB {
+								sig = "converged-on-rib-ack-in-fib-mode"
+							}
+						}
+						problem(sig, fmt.Sprintf("AwaitConverged returned nil although operations %v (queued before the call) have no terminal result yet", missing))
+						return
+					}
+					// Processing a response and recording the error it causes is one step as far as
+					// AwaitConverged is concerned: success is impossible once any part of the violating
+					// response has been taken into account.
+					if srv.violated.Load() {
+						srv.mu.Lock()
+						var fromViol []uint64
+						for id := range srv.violBatch {
+							if id <= before {
+								fromViol = append(fromViol, id)
+							}
+						}
+						srv.mu.Unlock()
+						if len(fromViol) > 0 {
+							sort.Slice(fromViol, func(i, j int) bool { return fromViol[i] < fromViol[j] })
+							problem("converged-on-a-violating-response:"+violate, fmt.Sprintf("AwaitConverged returned nil although the terminal results of operations %v arrived in the response that also carries the protocol violation (%s)", fromViol, violate))
+							return
+						}
+					}
+					convergedOK.Add(1)
+				} else if _, isCE := err.(*client.ClientErr); isCE {
 					return
 				}
-				convergedOK.Add(1)
-			} else if _, isCE := err.(*client.ClientErr); isCE {
-				return
 			}
-		}
-	}()
+		}()
+	}
 	for b := 0; b < nBursts; b++ {
 		nReq := 1 + r.Intn(6)
 		for q := 0; q < nReq; q++ {
@@ -479,6 +572,9 @@ func runCase(run sink, prun *ev.Run, i int, caseID string) {
 			}
 			c.Q(req) // a Q that never returns is caught by the child's case watchdog
 			queuedSeq.Store(uint64(total))
+			if b == nBursts-1 && q == nReq-1 {
+				srv.expectTotal.Store(int64(total))
+			}
 			logf("queued request with ops %d..%d", total-nOps+1, total)
 		}
 		if r.Intn(3) == 0 {
@@ -592,7 +688,10 @@ func runCase(run sink, prun *ev.Run, i int, caseID string) {
 	run.Count("operations_queued", int64(total))
 	run.Count("conservation_samples", samples.Load())
 	run.Count("await_converged_successes_checked", convergedOK.Load())
-	run.Seen("modes", fmt.Sprintf("fib=%v/violate=%s", fib, violate))
+	run.Seen("modes", fmt.Sprintf("fib=%v/violate=%s/final-response-only=%v", fib, violate, finalOnly))
+	if finalOnly && srv.violated.Load() {
+		run.Count("violations_riding_on_the_converging_response", 1)
+	}
 	run.Distinct(caseID + fmt.Sprint(total))
 	if i < 2 {
 		run.Sample(map[string]any{"case": caseID, "fib_ack": fib, "trace": trace})
